@@ -7,6 +7,7 @@ import (
 	"go/ast"
 	"go/token"
 	"go/types"
+	"sort"
 	"strings"
 
 	"golang.org/x/tools/go/cfg"
@@ -224,7 +225,7 @@ func atoiOfFirst(info *types.Info, scope ast.Node, o Origin, isArgv func(ast.Exp
 
 // indexedFill recognises `D := make([]T, len(S)); for i[, v] := range S { D[i] = S[i] | v }`
 // (the assignment being a top-level statement of the range body) and returns S.
-func indexedFill(info *types.Info, body ast.Node, d *ast.Ident, mk *ast.CallExpr) ast.Expr {
+func indexedFill(c *core.Ctx, info *types.Info, body ast.Node, d *ast.Ident, mk *ast.CallExpr) ast.Expr {
 	if len(mk.Args) != 2 {
 		return nil
 	}
@@ -233,6 +234,7 @@ func indexedFill(info *types.Info, body ast.Node, d *ast.Ident, mk *ast.CallExpr
 		return nil
 	}
 	var hit ast.Expr
+	var lastW *ast.AssignStmt
 	n := 0
 	core.Inspect(body, func(m ast.Node) bool {
 		rs, ok := m.(*ast.RangeStmt)
@@ -242,6 +244,7 @@ func indexedFill(info *types.Info, body ast.Node, d *ast.Ident, mk *ast.CallExpr
 				for _, l := range as.Lhs {
 					if ix, ok := ast.Unparen(l).(*ast.IndexExpr); ok && pat.Same(info, ix.X, d) {
 						n++
+						lastW = as
 					}
 				}
 			}
@@ -272,6 +275,15 @@ func indexedFill(info *types.Info, body ast.Node, d *ast.Ident, mk *ast.CallExpr
 	})
 	if n != 1 { // exactly one element write, the recognised one
 		return nil
+	}
+	if hit == nil && lastW != nil && len(lastW.Lhs) == 1 && len(lastW.Rhs) == 1 && lastW.Tok == token.ASSIGN {
+		// D[i] = S[i] with a counter i walking S (for or goto form)
+		dx := ast.Unparen(lastW.Lhs[0]).(*ast.IndexExpr)
+		if sx, ok := ast.Unparen(lastW.Rhs[0]).(*ast.IndexExpr); ok && pat.Same(info, sx.Index, dx.Index) && pat.Same(info, sx.X, b["_s"]) {
+			if walkedIndex(c, info, body, sx, lastW) == "" {
+				hit = sx.X
+			}
+		}
 	}
 	return hit
 }
@@ -319,6 +331,7 @@ func elementCopy(c *core.Ctx, info *types.Info, scope ast.Node, x ast.Expr, pkgP
 		return nil, "", fmt.Sprintf("Args `%s` is not a local slice", c.Src(x))
 	}
 	var nonEmptyMake *ast.CallExpr
+	nApp := 0
 	for _, o := range Origins(info, scope, id) {
 		var call *ast.CallExpr
 		var bi *types.Builtin
@@ -340,7 +353,28 @@ func elementCopy(c *core.Ctx, info *types.Info, scope ast.Node, x ast.Expr, pkgP
 				nonEmptyMake = call
 			}
 		case call != nil && bi != nil && bi.Name() == "append" && len(call.Args) == 2 && !call.Ellipsis.IsValid() && appendsToItself(info, o.Stmt, call):
+			nApp++
+			if nApp > 1 {
+				return nil, "", "the argument slice is appended to at more than one place"
+			}
+			if ix, ok := ast.Unparen(call.Args[1]).(*ast.IndexExpr); ok {
+				// S[i]: i the key of a range over S, or a counter walking 0..len(S)-1 (for or goto form)
+				ko, isKey := SoleOrigin(info, scope, ix.Index)
+				if !(isKey && ko.Range && ko.Res == 0 && pat.Same(info, ko.Stmt.(*ast.RangeStmt).X, ix.X)) {
+					why := walkedIndex(c, info, scope, ix, o.Stmt)
+					if why != "" {
+						return nil, "", why
+					}
+					src = ix.X
+					continue
+				}
+			}
 			ro, ok := SoleOrigin(info, scope, call.Args[1])
+			if ix, isIx := ast.Unparen(call.Args[1]).(*ast.IndexExpr); isIx {
+				ro, ok = SoleOrigin(info, scope, ix.Index)
+				ok = ok && ro.Range && ro.Res == 0
+				ro.Res = 1
+			}
 			if !ok || !ro.Range || ro.Res != 1 {
 				return nil, "", fmt.Sprintf("appended element `%s` is not the value of a range loop", c.Src(call.Args[1]))
 			}
@@ -358,6 +392,9 @@ func elementCopy(c *core.Ctx, info *types.Info, scope ast.Node, x ast.Expr, pkgP
 			if n != 1 {
 				return nil, "", "the append is not a top-level statement of the range body"
 			}
+			if why := everyIteration(c, info, scope, rs, o.Stmt); why != "" {
+				return nil, "", why
+			}
 			src = rs.X
 		default:
 			if o.Param {
@@ -371,7 +408,7 @@ func elementCopy(c *core.Ctx, info *types.Info, scope ast.Node, x ast.Expr, pkgP
 	}
 	if src == nil && nonEmptyMake != nil {
 		// make([]T, len(S)) filled by `for i := range S { D[i] = S[i] }` (or the range value)
-		if idx := indexedFill(info, scope, id, nonEmptyMake); idx != nil {
+		if idx := indexedFill(c, info, scope, id, nonEmptyMake); idx != nil {
 			src = idx
 		}
 	}
@@ -899,4 +936,649 @@ func r7(c *core.Ctx, p *Parser) {
 	if k == 0 {
 		c.Undecidedf(rule, "filtered-only-on-verdict", p.Loop.Pos(), "no filter counter site in the parser loop")
 	}
+	VerdictHonoured(c, p, rule)
+}
+
+// VerdictHonoured: the converse of filtered-only-on-verdict (keys verdict-honoured/<enqueue>#k under rule). A drop flag is a
+// plain verdict variable whose being true sends the command to a drop site
+// (it occurs positively in a condition from whose true side every path counts
+// the command as filtered before anything else happens), and in any case the
+// database verdict (the flag set from filter.FilterDB of the parsed SELECT,
+// which survives the iteration). Every enqueue inside the loop must lie behind
+// a test that found each drop flag false: counted from the last write of the
+// flag (writes of the constant false need no test), or from the start of the
+// iteration when the flag is not written on the way.
+func VerdictHonoured(c *core.Ctx, p *Parser, rule string) {
+	info := p.Info
+	body := p.Fn.Decl.Body
+	// plain verdict variables: bool locals only ever assigned true/false or an un-negated filter.* result
+	plain := map[types.Object]bool{}
+	verdict := func(o types.Object) bool {
+		if v, ok := plain[o]; ok {
+			return v
+		}
+		ok := true
+		var ref ast.Expr
+		core.Inspect(body, func(m ast.Node) bool {
+			if x, isID := m.(*ast.Ident); isID && ref == nil && core.ObjOf(info, x) == o {
+				ref = x
+			}
+			return true
+		})
+		if ref == nil {
+			ok = false
+		} else {
+			for _, or := range Origins(info, body, ref) {
+				if or.Zero {
+					continue
+				}
+				if or.Expr == nil || or.Op != 0 || or.Range {
+					ok = false
+					continue
+				}
+				if tv, has := info.Types[or.Expr]; has && tv.Value != nil {
+					continue
+				}
+				call, isCall := ast.Unparen(or.Expr).(*ast.CallExpr)
+				if !isCall {
+					ok = false
+					continue
+				}
+				f := core.CalleeFunc(info, call)
+				if f == nil || f.Pkg() == nil || !strings.HasSuffix(f.Pkg().Path(), "redis-shake/filter") {
+					ok = false
+				}
+			}
+		}
+		plain[o] = ok
+		return ok
+	}
+	g := p.G
+	counts := p.counts(c)
+	inLoop := func(n ast.Node) bool { return n != nil && p.Loop.Pos() <= n.Pos() && n.End() <= p.Loop.End() }
+	var flags []types.Object
+	seen := map[types.Object]bool{}
+	addFlag := func(o types.Object) {
+		if v, ok := o.(*types.Var); ok && !v.IsField() && !seen[o] && verdict(o) {
+			seen[o] = true
+			flags = append(flags, o)
+		}
+	}
+	for _, b := range g.CFG.Blocks {
+		if !b.Live || len(b.Succs) != 2 {
+			continue
+		}
+		cond := cfgq.CondOf(b)
+		if cond == nil || !inLoop(cond) {
+			continue
+		}
+		for si := range b.Succs {
+			// does this side always end in a drop?
+			w := g.Path(cfgq.Query{From: cfgq.Point{B: b.Succs[si], I: 0}, Avoid: counts, Target: cfgq.Or(p.IsDecode, p.IsSend), TargetExit: cfgq.NormalExit})
+			if w != nil || g.Path(cfgq.Query{From: cfgq.Point{B: b.Succs[si], I: 0}, Target: counts}) == nil {
+				continue
+			}
+			for _, ft := range p.Fl.Facts(b, si) {
+				if o, val := BoolFact(info, ft); o != nil && val {
+					addFlag(o)
+				}
+			}
+			for _, al := range p.Fl.AltsOf(b, si) {
+				for _, ft := range al {
+					if o, val := BoolFact(info, ft); o != nil && val {
+						addFlag(o)
+					}
+				}
+			}
+		}
+	}
+	// the database verdict
+	core.Inspect(p.Loop.Body, func(m ast.Node) bool {
+		as, ok := m.(*ast.AssignStmt)
+		if !ok || len(as.Lhs) != len(as.Rhs) {
+			return true
+		}
+		for i, r := range as.Rhs {
+			if call, ok := ast.Unparen(r).(*ast.CallExpr); ok && core.IsFunc(core.CalleeFunc(info, call), "redis-shake/filter", "", "FilterDB") {
+				if id, ok := ast.Unparen(as.Lhs[i]).(*ast.Ident); ok {
+					addFlag(core.ObjOf(info, id))
+				}
+			}
+		}
+		return true
+	})
+	if len(flags) == 0 {
+		return
+	}
+	sort.Slice(flags, func(i, j int) bool { return flags[i].Pos() < flags[j].Pos() })
+	var start *cfg.Block
+	for _, lb := range g.CFG.Blocks {
+		if lb.Kind == cfg.KindForBody && lb.Stmt == ast.Stmt(p.Loop) {
+			start = lb
+		}
+	}
+	if start == nil {
+		return
+	}
+	idx := map[string]int{}
+	for _, e := range p.Sends {
+		if !e.InLoop {
+			continue
+		}
+		idx[e.Name]++
+		key := fmt.Sprintf("verdict-honoured/%s#%d", e.Name, idx[e.Name])
+		target := func(n ast.Node) bool { return n == e.Pt.Node() }
+		var wit []string
+		culprit := ""
+		var culpritObj types.Object
+		for _, v := range flags {
+			v := v
+			// write of v: 0 none, 1 the constant false, 2 anything else
+			writeKind := func(n ast.Node) int {
+				kind := 0
+				upd := func(rhs ast.Expr, known bool) {
+					k := 2
+					if !known {
+						k = 1 // declared without a value: false
+					} else if tv, ok := info.Types[rhs]; ok && tv.Value != nil && tv.Value.String() == "false" {
+						k = 1
+					}
+					if k > kind {
+						kind = k
+					}
+				}
+				switch x := n.(type) {
+				case *ast.AssignStmt:
+					for i, l := range x.Lhs {
+						if IsObj(info, v)(l) {
+							if len(x.Lhs) == len(x.Rhs) && (x.Tok == token.ASSIGN || x.Tok == token.DEFINE) {
+								upd(x.Rhs[i], true)
+							} else {
+								kind = 2
+							}
+						}
+					}
+				case *ast.ValueSpec:
+					for i, nm := range x.Names {
+						if info.Defs[nm] == v {
+							if i < len(x.Values) {
+								upd(x.Values[i], true)
+							} else {
+								upd(nil, false)
+							}
+						}
+					}
+				case *ast.DeclStmt:
+					if gd, ok := x.Decl.(*ast.GenDecl); ok {
+						for _, sp := range gd.Specs {
+							if vs, ok := sp.(*ast.ValueSpec); ok {
+								for i, nm := range vs.Names {
+									if info.Defs[nm] == v {
+										if i < len(vs.Values) {
+											upd(vs.Values[i], true)
+										} else {
+											upd(nil, false)
+										}
+									}
+								}
+							}
+						}
+					}
+				}
+				return kind
+			}
+			isWrite := func(n ast.Node) bool { return writeKind(n) > 0 }
+			foundFalse := p.Fl.Edge(func(ft cfgq.Fact) bool {
+				o, val := BoolFact(info, ft)
+				return o == v && !val
+			})
+			// flags derived from v: `w := v` / `w := v || ...` with every other write of w the constant
+			// true; once that definition has run, finding w false finds v false as well
+			type derivedFlag struct {
+				w   types.Object
+				def ast.Node
+			}
+			var derived []derivedFlag
+			core.Inspect(p.Loop.Body, func(m ast.Node) bool {
+				as, ok := m.(*ast.AssignStmt)
+				if !ok || len(as.Lhs) != len(as.Rhs) || (as.Tok != token.ASSIGN && as.Tok != token.DEFINE) {
+					return true
+				}
+				for i, l := range as.Lhs {
+					id, ok := ast.Unparen(l).(*ast.Ident)
+					if !ok || id.Name == "_" {
+						continue
+					}
+					wv, ok := core.ObjOf(info, id).(*types.Var)
+					if !ok || types.Object(wv) == v || !types.Identical(wv.Type().Underlying(), types.Typ[types.Bool]) {
+						continue
+					}
+					hasV := false
+					for _, d := range disjuncts(as.Rhs[i]) {
+						hasV = hasV || IsObj(info, v)(d)
+					}
+					if !hasV {
+						continue
+					}
+					okOthers := true
+					for _, o := range Origins1(info, p.Fn.Decl, id) {
+						if o.Stmt == ast.Node(as) || o.Zero {
+							continue
+						}
+						tv, isC := info.Types[o.Expr]
+						if o.Expr == nil || o.Op != 0 || !isC || tv.Value == nil || tv.Value.String() != "true" {
+							okOthers = false
+						}
+					}
+					if okOthers {
+						derived = append(derived, derivedFlag{wv, as})
+					}
+				}
+				return true
+			})
+			isDef := func(n ast.Node) bool {
+				for _, d := range derived {
+					if n == d.def {
+						return true
+					}
+				}
+				return false
+			}
+			// a path on which neither v nor (after its definition ran) a flag derived from v was found false
+			unguarded := func(from cfgq.Point, after bool, stop func(ast.Node) bool) []string {
+				if w := g.Path(cfgq.Query{From: from, After: after, Avoid: cfgq.Or(stop, isDef), AvoidEdge: foundFalse, Target: target}); w != nil {
+					return w
+				}
+				for _, d := range derived {
+					dp, ok := g.Find(d.def)
+					if !ok || g.Path(cfgq.Query{From: from, After: after, Avoid: stop, Target: func(n ast.Node) bool { return n == dp.Node() }}) == nil {
+						continue
+					}
+					dw := d.w
+					wFalse := p.Fl.Edge(func(ft cfgq.Fact) bool {
+						o, val := BoolFact(info, ft)
+						return o == dw && !val
+					})
+					if w := g.Path(cfgq.Query{From: dp, After: true, Avoid: cfgq.Or(stop, isDef, p.IsDecode), Target: target,
+						AvoidEdge: func(b *cfg.Block, si int) bool { return foundFalse(b, si) || wFalse(b, si) }}); w != nil {
+						return w
+					}
+				}
+				return nil
+			}
+			// (a) the value the flag has at the start of the iteration
+			w := unguarded(cfgq.Point{B: start, I: 0}, false, isWrite)
+			// (b) every write that may leave it true
+			if w == nil {
+				for _, wp := range g.Points(func(n ast.Node) bool { return inLoop(n) && writeKind(n) == 2 }) {
+					w = unguarded(wp, true, cfgq.Or(isWrite, p.IsDecode))
+					if w != nil {
+						break
+					}
+				}
+			}
+			if w != nil {
+				wit, culprit, culpritObj = w, v.Name(), v
+				break
+			}
+		}
+		if wit != nil && flowsElsewhere(info, p.Loop.Body, culpritObj) {
+			c.Undecidedf(rule, key, e.Pos(), "the flag `%s` (true = drop the command) is copied into other variables or handed to calls; the rule cannot see whether the enqueue lies behind a test that found it false", culprit)
+			continue
+		}
+		if wit == nil {
+			c.Okf(rule, key, e.Pos(), "the enqueue lies behind tests that found every drop flag (%d of them, among them the database verdict of the last SELECT) false", len(flags))
+			continue
+		}
+		c.Check(rule, key, e.Pos(), false, fmt.Sprintf(
+			"every enqueue in the parser loop must lie behind a test that found every filter verdict false; on this path the flag `%s` (true = drop the command) is not consulted after it was last set, so a command is forwarded although the filter verdict in force says drop: e.g. the master's keep-alive PING while the source is inside a filtered database is sent to the target and stamps a checkpoint offset inside the filtered stretch, and a restart from that checkpoint applies the following commands of the filtered database to the recorded one", culprit), wit...)
+	}
+}
+
+// walkedIndex decides, on the control-flow graph of scope, that the statement
+// at (`d = append(d, S[i])`) runs exactly once for i = 0, 1, .., len(S)-1:
+// i is a local counter defined by a constant 0 and one increment by 1, one
+// guard `i < len(S)` (or an equivalent comparison) is passed before every
+// append, append and increment alternate, and the guard is not left on its
+// true side without appending. It covers `for i := 0; i < len(S); i++`, the
+// same loop written with a label and goto, and a while-style for. The result
+// is "" or the reason why the form is not recognised.
+func walkedIndex(c *core.Ctx, info *types.Info, scope ast.Node, ix *ast.IndexExpr, at ast.Node) string {
+	iid, ok := ast.Unparen(ix.Index).(*ast.Ident)
+	if !ok {
+		return fmt.Sprintf("appended element `%s` is neither a range value nor indexed by a counter", c.Src(ix))
+	}
+	iv := core.ObjOf(info, iid)
+	var body *ast.BlockStmt
+	switch x := scope.(type) {
+	case *ast.FuncDecl:
+		body = x.Body
+	case *ast.FuncLit:
+		body = x.Body
+	case *ast.BlockStmt:
+		body = x
+	}
+	if body == nil || iv == nil {
+		return fmt.Sprintf("appended element `%s`: enclosing body not available", c.Src(ix))
+	}
+	un := func(format string, a ...interface{}) string {
+		return fmt.Sprintf("appended element `%s` is indexed by `%s`, ", c.Src(ix), iid.Name) + fmt.Sprintf(format, a...)
+	}
+	// definitions of the counter
+	var init, inc ast.Node
+	for _, o := range Origins(info, scope, iid) {
+		switch {
+		case o.Zero:
+			if init != nil {
+				return un("which has several initialisations")
+			}
+			init = o.Stmt
+		case o.Op == token.INC && o.Expr == nil, o.Op == token.ADD_ASSIGN && isIntConst(info, o.Expr, 1):
+			if inc != nil {
+				return un("which is advanced at several places")
+			}
+			inc = o.Stmt
+		case o.Op == 0 && !o.Range && o.Res < 0 && isIntConst(info, o.Expr, 0):
+			if init != nil {
+				return un("which has several initialisations")
+			}
+			init = o.Stmt
+		case o.Op == 0 && !o.Range && o.Res < 0 && (pat.Expr("_i + 1").Match(info, o.Expr, pat.Binds{"_i": iid}) != nil || pat.Expr("1 + _i").Match(info, o.Expr, pat.Binds{"_i": iid}) != nil):
+			if inc != nil {
+				return un("which is advanced at several places")
+			}
+			inc = o.Stmt
+		default:
+			return un("which is not a counter from 0 in steps of 1 (`%s`)", c.Src(o.Stmt))
+		}
+	}
+	if init == nil || inc == nil {
+		return un("which is not a counter from 0 in steps of 1")
+	}
+	escapes := false
+	core.InspectAll(body, func(n ast.Node) bool {
+		switch x := n.(type) {
+		case *ast.UnaryExpr:
+			if x.Op == token.AND && IsObj(info, iv)(x.X) {
+				escapes = true
+			}
+		case *ast.FuncLit:
+			if core.Mentions(info, x, iv) {
+				escapes = true
+			}
+		}
+		return true
+	})
+	if escapes {
+		return un("whose address is taken or which a closure captures")
+	}
+	g := cfgq.New(c.Program.Fset, info, body, cfgq.NR(c.Program))
+	pA, ok1 := g.Find(at)
+	pI, ok2 := g.Find(inc)
+	pZ, ok3 := g.Find(init)
+	if ds, ok := init.(*ast.DeclStmt); ok && !ok3 {
+		pZ, ok3 = g.Find(ds.Decl)
+	}
+	if !ok1 || !ok2 || !ok3 {
+		return un("but the statements are not found in the control-flow graph")
+	}
+	// the guard
+	type guard struct {
+		b    *cfg.Block
+		succ int
+		cond ast.Expr
+	}
+	var gs []guard
+	for _, b := range g.CFG.Blocks {
+		cond := cfgq.CondOf(b)
+		if cond == nil || len(b.Succs) != 2 {
+			continue
+		}
+		be, ok := ast.Unparen(cond).(*ast.BinaryExpr)
+		if !ok {
+			continue
+		}
+		isI := func(e ast.Expr) bool { return IsObj(info, iv)(e) }
+		isLen := func(e ast.Expr) bool {
+			m := pat.Expr("len(_s)").Match(info, e, nil)
+			if m == nil {
+				return false
+			}
+			sx, _ := m["_s"].(ast.Expr)
+			return sx != nil && pat.Same(info, sx, ix.X)
+		}
+		op := be.Op
+		switch {
+		case isI(be.X) && isLen(be.Y):
+		case isLen(be.X) && isI(be.Y):
+			switch op { // mirror
+			case token.LSS:
+				op = token.GTR
+			case token.GTR:
+				op = token.LSS
+			case token.LEQ:
+				op = token.GEQ
+			case token.GEQ:
+				op = token.LEQ
+			}
+		default:
+			continue
+		}
+		switch op {
+		case token.LSS, token.NEQ:
+			gs = append(gs, guard{b, 0, cond})
+		case token.GEQ, token.EQL:
+			gs = append(gs, guard{b, 1, cond})
+		default:
+			return un("compared with the length by `%s`: off by one or not a bound", c.Src(cond))
+		}
+	}
+	if len(gs) != 1 {
+		return un("but there is not exactly one guard `%s < len(%s)`", iid.Name, c.Src(ix.X))
+	}
+	gd := gs[0]
+	isA := func(n ast.Node) bool { return n == at }
+	isInc := func(n ast.Node) bool { return n == inc }
+	isInit := func(n ast.Node) bool { return n == pZ.Node() }
+	isG := func(n ast.Node) bool { return n == ast.Node(gd.cond) }
+	inEdge := func(b *cfg.Block, succ int) bool { return b == gd.b && succ == gd.succ }
+	sObj := types.Object(nil)
+	if sid, ok := ast.Unparen(ix.X).(*ast.Ident); ok {
+		sObj = core.ObjOf(info, sid)
+	}
+	writesS := func(n ast.Node) bool {
+		as, ok := n.(*ast.AssignStmt)
+		if !ok || sObj == nil {
+			return false
+		}
+		for _, l := range as.Lhs {
+			if IsObj(info, sObj)(l) {
+				return true
+			}
+		}
+		return false
+	}
+	if sObj == nil {
+		return un("into `%s`, which is not a variable", c.Src(ix.X))
+	}
+	// the destination: leaving the guarded region for a use of it without having appended loses an element
+	var dObj types.Object
+	if as, ok := at.(*ast.AssignStmt); ok && len(as.Lhs) == 1 {
+		l := ast.Unparen(as.Lhs[0])
+		if dx, ok := l.(*ast.IndexExpr); ok {
+			l = ast.Unparen(dx.X)
+		}
+		if id, ok := l.(*ast.Ident); ok {
+			dObj = core.ObjOf(info, id)
+		}
+	}
+	if dObj == nil {
+		return un("but the destination of `%s` is not a variable", c.Src(at))
+	}
+	usesD := func(n ast.Node) bool { return n != at && core.Mentions(info, n, dObj) }
+	checks := []struct {
+		q   cfgq.Query
+		why string
+	}{
+		{cfgq.Query{From: pZ, After: true, AvoidEdge: inEdge, Target: isA}, "the append can be reached without passing the bound check"},
+		{cfgq.Query{From: pZ, After: true, Avoid: isA, Target: isInc}, "the counter can advance before the first append (element skipped)"},
+		{cfgq.Query{From: pA, After: true, Avoid: isInc, Target: cfgq.Or(isA, isG)}, "the next round can start without advancing the counter"},
+		{cfgq.Query{From: pI, After: true, Avoid: isA, Target: isInc}, "the counter can advance twice without an append (element skipped)"},
+		{cfgq.Query{From: pI, After: true, AvoidEdge: inEdge, Avoid: isInit, Target: isA}, "the append can be reached again without passing the bound check"},
+		{cfgq.Query{From: cfgq.Point{B: gd.b.Succs[gd.succ]}, Avoid: cfgq.Or(isA, isInit), Target: cfgq.Or(isG, usesD), TargetExit: cfgq.NormalExit}, "the loop can be left inside the bound without appending (element missing)"},
+	}
+	for _, ch := range checks {
+		if w := g.Path(ch.q); w != nil {
+			return un("and %s", ch.why)
+		}
+	}
+	for _, w := range g.Points(writesS) {
+		wn := w.Node()
+		isW := func(n ast.Node) bool { return n == wn }
+		if g.Path(cfgq.Query{From: pA, After: true, Avoid: isInit, Target: isW}) != nil && g.Path(cfgq.Query{From: w, After: true, Avoid: isInit, Target: isA}) != nil {
+			return un("and the source slice is reassigned while it is walked")
+		}
+	}
+	if g.Path(cfgq.Query{From: pZ, After: true, Target: isA}) == nil {
+		return un("but the append is not reachable from the initialisation of the counter")
+	}
+	return ""
+}
+
+func isIntConst(info *types.Info, e ast.Expr, v int64) bool {
+	if e == nil {
+		return false
+	}
+	n, ok := core.IntConst(info, e)
+	return ok && n == v
+}
+
+// everyIteration: no iteration of the range statement rs ends (next iteration,
+// break, goto out of the loop) without executing the statement at. Calls that
+// do not return end a path.
+func everyIteration(c *core.Ctx, info *types.Info, scope ast.Node, rs *ast.RangeStmt, at ast.Node) string {
+	var body *ast.BlockStmt
+	switch x := scope.(type) {
+	case *ast.FuncDecl:
+		body = x.Body
+	case *ast.FuncLit:
+		body = x.Body
+	case *ast.BlockStmt:
+		body = x
+	}
+	if body == nil {
+		return "range loop of the argument copy: enclosing body not available"
+	}
+	g := cfgq.New(c.Program.Fset, info, body, cfgq.NR(c.Program))
+	var start *cfg.Block
+	for _, b := range g.CFG.Blocks {
+		if b.Kind == cfg.KindRangeBody && b.Stmt == ast.Node(rs) {
+			start = b
+		}
+	}
+	if start == nil {
+		return "range loop of the argument copy not found in the control-flow graph"
+	}
+	seen := map[*cfg.Block]bool{}
+	var walk func(b *cfg.Block) bool
+	walk = func(b *cfg.Block) bool {
+		if seen[b] {
+			return false
+		}
+		seen[b] = true
+		for _, n := range b.Nodes {
+			if n == at {
+				return false
+			}
+		}
+		if b != start && !(rs.Body.Pos() <= blockPos(b) && blockPos(b) < rs.Body.End()) {
+			return true // left the loop body (next iteration, loop exit or a jump elsewhere)
+		}
+		if k := g.Exit(b); len(b.Succs) == 0 {
+			return cfgq.NormalExit(b, k)
+		}
+		for _, s := range b.Succs {
+			if walk(s) {
+				return true
+			}
+		}
+		return false
+	}
+	if walk(start) {
+		return fmt.Sprintf("an iteration of `for ... range %s` can end without `%s`: an argument would be missing", c.Src(rs.X), c.Src(at))
+	}
+	return ""
+}
+
+// blockPos: position of the first node of b, or of the statement the block belongs to.
+func blockPos(b *cfg.Block) token.Pos {
+	if len(b.Nodes) > 0 {
+		return b.Nodes[0].Pos()
+	}
+	if b.Stmt != nil {
+		return b.Stmt.Pos()
+	}
+	return token.NoPos
+}
+
+// flowsElsewhere: inside body the bool variable v is read anywhere else than
+// in the condition of an if / for / switch-case (its value may then travel in
+// another variable the caller's path query does not follow).
+func flowsElsewhere(info *types.Info, body ast.Node, v types.Object) bool {
+	inCond := map[*ast.Ident]bool{}
+	mark := func(e ast.Expr) {
+		if e == nil {
+			return
+		}
+		ast.Inspect(e, func(m ast.Node) bool {
+			if _, isCall := m.(*ast.CallExpr); isCall {
+				return false // an argument of a call inside a condition flows into the callee
+			}
+			if id, ok := m.(*ast.Ident); ok {
+				inCond[id] = true
+			}
+			return true
+		})
+	}
+	core.InspectAll(body, func(m ast.Node) bool {
+		switch x := m.(type) {
+		case *ast.IfStmt:
+			mark(x.Cond)
+		case *ast.ForStmt:
+			mark(x.Cond)
+		case *ast.SwitchStmt:
+			mark(x.Tag)
+		case *ast.CaseClause:
+			for _, e := range x.List {
+				mark(e)
+			}
+		}
+		return true
+	})
+	found := false
+	core.InspectAll(body, func(m ast.Node) bool {
+		switch x := m.(type) {
+		case *ast.AssignStmt:
+			for _, l := range x.Lhs {
+				if id, ok := ast.Unparen(l).(*ast.Ident); ok {
+					inCond[id] = true // a write, not a read
+				}
+			}
+		case *ast.Ident:
+			if info.Uses[x] == v && !inCond[x] {
+				found = true
+			}
+		}
+		return true
+	})
+	return found
+}
+
+// disjuncts splits `a || b || c` (one element for anything else).
+func disjuncts(e ast.Expr) []ast.Expr {
+	e = ast.Unparen(e)
+	if be, ok := e.(*ast.BinaryExpr); ok && be.Op == token.LOR {
+		return append(disjuncts(be.X), disjuncts(be.Y)...)
+	}
+	return []ast.Expr{e}
 }
